@@ -103,6 +103,16 @@ func checkRetained(s *c06State, what string, node model.ID, after *model.Snapsho
 }
 
 func runC06(p histPlan, c *stats.Case) error {
+	if err := witnessCheck(); err != nil { // the first call opens it, before any other store of this process exists
+		return err
+	}
+	if err := runC06Store(p, c); err != nil {
+		return err
+	}
+	return witnessCheck()
+}
+
+func runC06Store(p histPlan, c *stats.Case) error {
 	node := toID(p.Node)
 	r, err := newRig(node, p.CapMB, vfs.NewMem())
 	if err != nil {
